@@ -41,15 +41,19 @@ Record ring := Ring {
   r_nodes : list N;
   r_version : N }.
 
-(* a replication delta, as far as routing is concerned: its key (bytes) and an opaque
-   payload identifier *)
-Notation delta := (list N * N)%type (only parsing).
+(* a replication delta, as far as routing is concerned: its key (bytes), an opaque payload
+   identifier, and [source_replica] - the replica the update originated on, which need not
+   be the node that is routing it (relayed / forwarded deltas).  Routing reads the key
+   only; the other two fields are carried along untouched. *)
+Notation delta := (list N * (N * N))%type (only parsing).
 Definition d_key (d : delta) : list N := fst d.
+Definition d_tag (d : delta) : N := fst (snd d).
+Definition d_origin (d : delta) : N := snd (snd d).
 
 (* RoutingTable = HashMap<ReplicaId, Vec<ReplicationDelta>>: association list in order of
    first insertion; the HashMap's own iteration order is an explicit argument wherever
    the code iterates the table (queue_deltas). *)
-Notation table := (list (N * list (list N * N)))%type (only parsing).
+Notation table := (list (N * list (list N * (N * N))))%type (only parsing).
 
 Fixpoint tbl_push (t : N) (d : delta) (tbl : table) : table :=   (* entry(t).or_default().push(d) *)
   match tbl with
@@ -213,7 +217,7 @@ Section RingModel.
       (fun tbl d =>
          fold_left (fun tbl t => if has_peer r t then tbl_push t d tbl else tbl)
                    (get_gossip_targets (gr_ring r) (d_key d) (gr_me r) (os (kpos (d_key d))))
-                   tbl)
+                   tbl)   (* excludes the SENDER gr_me, not d_origin *)
       deltas [].
 
   (* route_broadcast (119-129): one entry per known peer other than self, each with all
